@@ -60,6 +60,7 @@ type Gen struct {
 	modRefs  []string
 	entrySeq, cutSeq int
 	modRanges []modRange
+	modKindsOnly []modTarget // per modifies target: the heap kinds its type has (loop heads and hard cuts havoc only those)
 	recvSliceInv func(st *State) []string
 	inputBufs  []string // []byte parameters that must not be retained (noalias mode)
 	inputNames []string
@@ -1252,7 +1253,7 @@ func (a *Act) loopHead(b *ssa.BasicBlock, ins []edgeIn, backs []*ssa.BasicBlock,
 			st.H[k] = g.havoc(a.nm(fmt.Sprintf("loop%d_H%s", idx, k)), heapSort[k])
 			continue
 		}
-		st.H[k] = g.framedHeap(a.nm(fmt.Sprintf("loop%d", idx)), k, g.entry.H[k], g.entry.Next, g.modRefs, true)
+		st.H[k] = g.framedHeapK(a.nm(fmt.Sprintf("loop%d", idx)), k, g.entry.H[k], g.entry.Next, g.modRefs, g.modKindsOnly, true)
 	}
 	headEnv := map[ssa.Value]string{}
 	for _, phi := range lc.phis {
@@ -1712,7 +1713,7 @@ func (a *Act) fireCuts(b *ssa.BasicBlock, ii int, st *State, reach string) {
 						st.H[k] = g.havoc(a.nm("cut_H"+k), heapSort[k])
 						continue
 					}
-					st.H[k] = g.framedHeap(a.nm("cut"), k, g.entry.H[k], g.entry.Next, g.modRefs, true)
+					st.H[k] = g.framedHeapK(a.nm("cut"), k, g.entry.H[k], g.entry.Next, g.modRefs, g.modKindsOnly, true)
 				}
 				for _, t := range a.evalClauseAt(c.Cl, st, nil, nil) {
 					g.assumeIf(reach, t)
